@@ -89,7 +89,17 @@ def check(cx):
     r2.instance('WALLOPS membership moves iff present')
     wh = has(field(STATE, 'wallops_users'), CONN_NICK)
     if len(wr) != 2 or not all(equivalent(e.pc, And(G, wh))[0] for e, _ in wr):
-        r2.violation('process_nick|rekey|wallops-condition', 'WALLOPS membership is not moved exactly when the old nick was in the set', loc=fn)
+        # which way it is wrong matters to the properties that import this rule: an entry left behind under the old nick (or
+        # inserted for a refused change) names a nick that is not registered; an entry dropped too often does not
+        rm = [e for e, x in wr if x['op'] == 'remove']
+        ins_ = [e for e, x in wr if x['op'] == 'insert']
+        kind_ = 'other'
+        if not rm or not entails(And(G, wh), Or(*[e.pc for e in rm]))[0]:
+            kind_ = 'stale'
+        elif ins_ and not all(entails(e.pc, G)[0] for e in ins_):
+            kind_ = 'spurious-insert'
+        r2.violation('process_nick|rekey|wallops-condition|' + kind_, 'WALLOPS membership is not moved exactly when the old nick was in the set',
+                     loc=fn)
     hist = [(e, x) for e, x in effs if x['op'] == 'insert_to_nick_history']
     r2.instance('WHOWAS record under the old nick')
     if len(hist) != 1 or hist[0][1]['args'][0] != CONN_NICK or 'history_entry' not in repr(hist[0][1]['args'][1]) \
